@@ -70,10 +70,10 @@ Proof.
       intros s s' Hcx E. cbn [process_card] in E.
       apply bind_ok in E. destruct E as ([] & s0 & E0 & E).
       apply bind_ok in E. destruct E as (z & s0' & Ez & E). injection Ez as <- <-.
-      destruct (keep4_card_label _ _ E0) as (k1 & k2 & k3 & k4 & k5).
+      destruct (keep4_card_label _ _ E0) as (k1 & k2 & k3 & k4 & k5 & k6).
       assert (Hcx0 : ctx s0) by (destruct Hcx as (A & B & C); repeat split; congruence).
       destruct (emitsB_while_gen c1 _ _ _ (u32_to_i32 (cs_pc s0)) He (IHc2 Hb) _ _ Hcx0 E) as (A & B & C & D).
-      split; [exact A|]. split; [rewrite <- k2; exact B|]. split; [exact C|].
+      split; [exact A|]. split; [destruct B as [B1 B2]; split; [rewrite <- k2; exact B1 | rewrite <- k6; exact B2]|]. split; [exact C|].
       intros T HT. rewrite (D T HT), k1, k5. reflexivity.
   - (* IfElse *)
     destruct op; try discriminate Hc. apply andb_true_iff in Hc. destruct Hc as [Hc Hb].
@@ -150,7 +150,8 @@ Theorem compile_f4_shape M B :
     p_bytecode B = encode (code_main4 (p_ids B) 0 (main_cards M) ++ IExit :: rest) /\
     (forall n, In n (main_names4 (main_cards M)) -> nm_find (handle_of_bytes n) (p_ids B) <> None) /\
     (forall h1 h2 id, nm_find h1 (p_ids B) = Some id -> nm_find h2 (p_ids B) = Some id -> h1 = h2) /\
-    (forall h id, nm_find h (p_ids B) = Some id -> id < two32).
+    (forall h id, nm_find h (p_ids B) = Some id -> id < two32) /\
+    handles_inj (main_names4 (main_cards M)) = true.
 Proof.
   intros HM HB Hlen. destruct M as [subs funs imps]. cbn [in_f4] in HM.
   destruct subs; [|discriminate]. destruct funs as [|[name f] [|]]; try discriminate.
@@ -187,12 +188,13 @@ Proof.
   destruct (g_ids _ _ _ Gs Hlen) as [Inv Ilt Iinj Iext].
   destruct (g_code _ _ _ Gs) as [l El].
   assert (Hsub : sub (cs_ids s2) (cs_ids s)) by exact Iext.
-  exists (rev l). split; [|split; [|split]].
+  exists (rev l). split; [|split; [|split; [|split]]].
   - f_equal. rewrite El, (Hcode2 _ Hsub), c1, p1. cbn [s0 init_state cs_code cs_pc]. rewrite app_nil_r, rev_app_distr, rev_involutive.
     rewrite <- app_assoc. reflexivity.
-  - intros n Hin. specialize (Hnames2 n Hin).
+  - intros n Hin. pose proof (named_found _ _ (Hnames2 n Hin)) as Hnf.
     destruct (nm_find (handle_of_bytes n) (cs_ids s2)) as [id|] eqn:En; [|congruence].
     rewrite (Hsub _ _ En). discriminate.
   - exact Iinj.
   - intros h id Hf. specialize (Ilt _ _ Hf). rewrite Inv in Ilt. lia.
+  - apply (named_inj s2 _ eq_refl Hnames2).
 Qed.
